@@ -9,6 +9,9 @@ from ..math import vec2
 
 Pentagon = List[Face]
 
+# Below this distance (in face units) a point cannot be told apart from a vertex: coordinates are O(1) doubles
+VERTEX_EPSILON = 1e-13
+
 class PentagonShape:
     def __init__(self, vertices: Pentagon):
         self.vertices = list(vertices)  # Make a copy to avoid mutating original
@@ -129,6 +132,10 @@ class PentagonShape:
                 # Only normalize by distance of point to edge as we can assume the edges of the
                 # pentagon are all the same length
                 p_length = math.sqrt(px * px + py * py)
+                if p_length < VERTEX_EPSILON:
+                    # The point is the vertex itself up to coordinate rounding: the direction of
+                    # (point - v1) is noise, so measure against the edge instead
+                    p_length = math.sqrt(dx * dx + dy * dy)
                 d_max = min(d_max, cross_product / p_length)
         
         return d_max
